@@ -378,7 +378,10 @@ class Manager:
         missed pings)
         """
         if self._connection:
-            self._connection.disconnect()
+            # the peer has stopped answering, so our unsent data will not
+            # be flushed either: do not wait for that (everything unacked is
+            # sent again on the next connection)
+            self._connection.abort()
 
     def _send_ping_reset_timer(self):
         """
